@@ -890,7 +890,7 @@ theorem Wf.closed : Closed0 Wf where
   fdtAdvance := fun _ _ now _ h hq hs => Wf.fdtAdvance now h hq hs
   fileStart := fun _ _ _ _ tk _ _ h _ hfn => Wf.fileStart tk h hfn
   pkt := fun _ _ _ _ now _ idx b e _ h _ _ _ _ _ => Wf.pkt now idx b e h
-  done := fun _ _ _ _ now _ _ _ h _ _ _ _ _ => Wf.done now h
+  done := fun _ _ _ _ now _ _ _ h _ _ _ => Wf.done now h
   fdtPkt := fun _ _ _ _ _ _ _ _ _ h hq hc hf _ he => Wf.fdtPkt h hq hc hf he
   fdtDone := fun _ _ _ _ now _ _ h hq hc hf _ _ => Wf.fdtDone now h hq hc hf
 
